@@ -28,6 +28,17 @@
          | 14 c                  the blocked Connected handler of connection c returns (no effect on the model)
          | 12 allow force nodial BasicHost.Connect(ctx, {ID: p}) on a real BasicHost over the swarm (a new call,
                                  opts = 1 + 16 + option bits; st 6 = returned nil)
+         | 15 dial allow force nodial proxy
+                                 a new call as in 4, and a non-limited connection (Transport().Proxy() = proxy) arrives
+                                 WHILE the call runs: if the call gets into waitForDirectConn, Swarm.addConn is started
+                                 when the call has just looked at the connection list there (from inside bestConnToPeer)
+                                 and the call is held before it can register until addConn has got as far as it can;
+                                 otherwise the connection arrives once the call has blocked.  No observation in between.
+                                 The property allows no difference to "4 ..; 1 0 proxy" (the connection appears while
+                                 the call is waiting, at the earliest possible moment), which is what the model runs;
+                                 the monitor sees it as the stimulus "1 0 proxy".
+       force (in 4, 12, 15): 0 = not set, 1 = WithForceDirectDial(ctx, reason) with a non-empty reason, 2 = with the
+       EMPTY reason string; the reason is informational only: the model (and the option bit in opts) treats 1 and 2 alike.
      OBS = nw key cn  m (flags)^m  n (st arg opts)^n  k (a f)^k
          nw  = len(directConnNotifs.m[p]); key = 1 iff the map has the key
          cn  = Connectedness(p): 0 NotConnected, 1 Connected, 2 Limited
@@ -123,6 +134,25 @@ Definition stimulate (s : state) (o : op) : state :=
 Definition apply_op (s : state) (o : op) : state :=
   let s1 := stimulate s o in settle (S (measure s1)) s1.
 
+(* a wire step: a plain stimulus, or wire op 15 (a call starts and a non-limited
+   connection arrives while it runs; observed only afterwards) *)
+Inductive wstep :=
+| WPlain (o : op)
+| WRace (dial allow force nodial proxy : bool).
+
+(* the stimulus the monitor is told *)
+Definition wstep_op (w : wstep) : op :=
+  match w with
+  | WPlain o => o
+  | WRace _ _ _ _ proxy => OAdd false proxy
+  end.
+
+Definition apply_wstep (s : state) (w : wstep) : state :=
+  match w with
+  | WPlain o => apply_op s o
+  | WRace d a f n proxy => apply_op (apply_op s (OStart d a f n)) (OAdd false proxy)
+  end.
+
 (* ---- observations -------------------------------------------------------------- *)
 Record call_obs := mkCO {
   co_st : nat; co_arg : nat;
@@ -190,6 +220,13 @@ Fixpoint model_trace (s : state) (ops : list op) : list (op * obs) :=
   match ops with
   | [] => []
   | o :: r => let s' := apply_op s o in (o, obs_of s') :: model_trace s' r
+  end.
+
+(* ... and for a list of wire steps (what a case line is replayed as) *)
+Fixpoint model_wtrace (s : state) (ws : list wstep) : list (op * obs) :=
+  match ws with
+  | [] => []
+  | w :: r => let s' := apply_wstep s w in (wstep_op w, obs_of s') :: model_wtrace s' r
   end.
 
 (* ---- the property monitor (kind 0) ------------------------------------------------ *)
@@ -356,11 +393,11 @@ Definition holds (tr : list (op * obs)) : bool :=
   match monitor_run obs_init 0 tr with [] => true | _ => false end.
 
 (* ---- conformance (kind 0) ---------------------------------------------------------- *)
-Fixpoint conform_run (s : state) (i : nat) (tr : list (op * obs)) : list Z :=
+Fixpoint conform_run (s : state) (i : nat) (tr : list (wstep * obs)) : list Z :=
   match tr with
   | [] => []
   | (o, x) :: r =>
-      let s' := apply_op s o in
+      let s' := apply_wstep s o in
       match obs_diff (obs_of s') x with
       | O => conform_run s' (S i) r
       | k => [ERR_MISMATCH; Z.of_nat i; Z.of_nat k; Z.of_nat (o_nw (obs_of s')); Z.of_nat (o_nw x);
@@ -445,14 +482,23 @@ Definition decode_op (l : list Z) : option (op * list Z) :=
   | _ => None
   end.
 
-Fixpoint decode_trace (fuel : nat) (l : list Z) : option (list (op * obs)) :=
+Definition decode_wstep (l : list Z) : option (wstep * list Z) :=
+  match l with
+  | 15 :: d :: a :: f :: n :: p :: r => Some (WRace (zbool d) (zbool a) (zbool f) (zbool n) (zbool p), r)
+  | _ => match decode_op l with
+         | Some (o, r) => Some (WPlain o, r)
+         | None => None
+         end
+  end.
+
+Fixpoint decode_trace (fuel : nat) (l : list Z) : option (list (wstep * obs)) :=
   match fuel with
   | O => None
   | S f =>
       match l with
       | [] => Some []
       | _ =>
-          match decode_op l with
+          match decode_wstep l with
           | Some (o, r) =>
               match decode_obs r with
               | Some (x, r1) =>
@@ -475,6 +521,6 @@ Definition conform_swarm (da : Z) (r : list Z) : list Z :=
 
 Definition monitor_swarm (r : list Z) : list Z :=
   match decode_trace (S (length r)) r with
-  | Some tr => monitor_run obs_init 0 tr
+  | Some tr => monitor_run obs_init 0 (map (fun wx => (wstep_op (fst wx), snd wx)) tr)
   | None => [ERR_MALFORMED; 1]
   end.
